@@ -2,11 +2,12 @@
 package c11
 
 import (
-	"sync/atomic"
 	"context"
 	"fmt"
+	"google.golang.org/grpc"
 	"os"
 	"sync"
+	"sync/atomic"
 	"testing"
 	"time"
 
@@ -329,6 +330,44 @@ func unreachableOwner(rec *mon.Recorder, c int) {
 		if err == nil {
 			rec.Violation("ack:success-with-unreachable-owner:"+op, fmt.Sprintf("%s: %s(%s) through node 1 returned success although the owner partition %d is assigned only to node %d, whose address node 1 no longer knows", desc, op, id, p, victim), replay)
 			break
+		}
+	}
+	// the same through the public gRPC service of the entry node: what a real client is told
+	if cc, derr := grpc.Dial(entry.Addr, grpc.WithInsecure()); derr == nil {
+		defer cc.Close()
+		dmc := pb.NewDataManagerClient(cc)
+		rpcTried := 0
+		for i := 0; i < 4000 && rpcTried < 6 && rec.Violations() == 0; i++ {
+			id := hx.Id(c*100000 + 60000 + i)
+			p := int(utils.UuidMod(id, uint64(parts)))
+			onVictim := false
+			for _, q := range hosted[victim] {
+				if q == p {
+					onVictim = true
+				}
+			}
+			if !onVictim {
+				continue
+			}
+			op := []string{"insert", "update", "remove"}[rpcTried%3]
+			rpcTried++
+			cctx, cancel := context.WithTimeout(ctx, 3*time.Second)
+			var err error
+			switch op {
+			case "insert":
+				_, err = dmc.Insert(cctx, &pb.InsertRequest{DatasetId: dsId.Bytes(), Id: id.Bytes(), Value: []float32{1, 2, 3}})
+			case "update":
+				_, err = dmc.Update(cctx, &pb.UpdateRequest{DatasetId: dsId.Bytes(), Id: id.Bytes(), Value: []float32{1, 2, 3}})
+			default:
+				_, err = dmc.Remove(cctx, &pb.RemoveRequest{DatasetId: dsId.Bytes(), Id: id.Bytes()})
+			}
+			cancel()
+			rec.Count("unreachable_owner_writes", 1)
+			rec.Count("unreachable_owner_writes_over_grpc", 1)
+			if err == nil {
+				rec.Violation("ack:success-with-unreachable-owner:grpc-"+op, fmt.Sprintf("%s: the %s RPC for %s sent to node 1 was answered with success although the owner partition %d is assigned only to node %d, whose address node 1 no longer knows", desc, op, id, p, victim), replay)
+				break
+			}
 		}
 	}
 	rec.Case(mon.Digest(desc), tried > 0)
